@@ -593,11 +593,11 @@ Theorem published_components : forall a,
 Proof. intros a. repeat split. Qed.
 
 (* size: the data followed by the padded pool; no pool without c-strings *)
-Theorem published_data_len : forall a, wf_archive a -> fits32 a ->
+Theorem published_data_len : forall a, wf_archive a ->
   lenN (c_data (published a)) = size a + lenN (pool_bytes a) /\
   lenN (pool_bytes a) mod 4 = 0 /\ (a_cstrs a = [] -> lenN (pool_bytes a) = 0).
 Proof.
-  intros a WF FIT.
+  intros a WF.
   destruct (ser_facts a WF) as (d2 & tpool2 & groups & ltab & Es & L2 & _).
   rewrite (published_eq a d2 tpool2 groups Es). cbn [c_data]. split; [rewrite lenN_app, L2; reflexivity|]. split.
   - destruct (pool_bytes_shape a) as (k & _ & _ & H). exact H.
@@ -605,23 +605,23 @@ Proof.
 Qed.
 
 (* outside the annotated cells the original bytes are reproduced *)
-Theorem published_data_outside : forall a, wf_archive a -> fits32 a ->
+Theorem published_data_outside : forall a, wf_archive a ->
   forall i, (i < N.to_nat (size a))%nat -> outside (cells a) i ->
   nth_error (c_data (published a)) i = nth_error (a_data a) i.
 Proof.
-  intros a WF FIT i Hi Ho.
+  intros a WF i Hi Ho.
   destruct (ser_facts a WF) as (d2 & tpool2 & groups & ltab & Es & L2 & _ & _ & _ & Hnth & _).
   rewrite (published_eq a d2 tpool2 groups Es). cbn [c_data].
   rewrite nth_error_app1 by (unfold lenN in L2; lia). apply Hnth, Ho.
 Qed.
 
 (* every pending c-string has become a pointer to a copy of the string inside the data region *)
-Theorem published_cstring : forall a, wf_archive a -> fits32 a ->
+Theorem published_cstring : forall a, wf_archive a ->
   forall s cs cell, In (s, cs) (a_cstrs a) -> In cell cs ->
   exists p, am_get cell (c_ptrs (published a)) = Some p /\ p < lenN (c_data (published a)) /\
             cstr_atN (c_data (published a)) p = Some s.
 Proof.
-  intros a WF FIT s cs cell Hs Hc.
+  intros a WF s cs cell Hs Hc.
   destruct (ser_facts a WF) as (d2 & tpool2 & groups & ltab & Es & L2 & _).
   rewrite (published_eq a d2 tpool2 groups Es). cbn [c_data c_ptrs].
   destruct (cs_facts a WF) as (_ & Hout & _).
@@ -643,10 +643,10 @@ Proof.
 Qed.
 
 (* the archive's own pointers are looked up unchanged *)
-Theorem published_own_pointers : forall a, wf_archive a -> fits32 a ->
+Theorem published_own_pointers : forall a, wf_archive a ->
   forall k, ~ In k (cs_cells a) -> am_get k (c_ptrs (published a)) = am_get k (a_ptrs a).
 Proof.
-  intros a WF FIT k Hk. cbn [published c_ptrs].
+  intros a WF k Hk. cbn [published c_ptrs].
   destruct (am_get k (a_ptrs a)) as [v|] eqn:G; [apply am_get_app_in, G|].
   rewrite am_get_app_notin by (apply am_get_none, G). apply am_get_none. unfold am_keys. intros Hin. apply Hk.
   eapply Permutation_in; [apply (cs_ptrs_cells a WF) | exact Hin].
